@@ -904,3 +904,14 @@ func init() {
 	mutant("request-overtakes-the-queue", "slot-released-with-the-reset", "conn.go", "			err := c.flushOut()\n			if err == nil {\n				err = c.writeRequest(ctx)\n			}\n", "			err := c.writeRequest(ctx)\n")
 	mutant("flush-writes-one-frame-only", "slot-released-with-the-reset", "conn.go", "			if err != nil {\n				return err\n			}\n		default:\n			return nil", "			return err\n		default:\n			return nil")
 }
+
+func init() {
+	mutant("handshake-ack-without-a-body", "frames-leave-with-a-body", "conn.go", "			fr.SetBody(stRes)\n\n			if _, err = fr.WriteTo(c.bw); err == nil {", "			if _, err = fr.WriteTo(c.bw); err == nil {")
+	mutant("data-frame-without-a-body", "frames-leave-with-a-body", "conn.go", "	fh.SetBody(data)\n", "")
+}
+
+func init() {
+	mutant("write-loop-stops-on-a-good-write", "nil-error-not-reported", "conn.go", "			if err := c.flushPending(); err != nil {", "			if err := c.flushPending(); err == nil {")
+	mutant("pending-body-error-sense-inverted", "nil-error-not-reported", "conn.go", "		if err != nil {\n			return err\n		}\n\n		if end {\n			return nil\n		}", "		if err == nil {\n			return err\n		}\n\n		if end {\n			return nil\n		}")
+	mutant("server-read-error-sense-inverted", "nil-error-not-reported", "serverConn.go", "			var h2err Error\n			if errors.As(err, &h2err) && h2err.frameType == FrameGoAway {", "			var h2err Error\n			if err == nil && errors.As(err, &h2err) && h2err.frameType == FrameGoAway {")
+}
